@@ -123,6 +123,15 @@ package object
 //@   property C29 C28
 //@   callee object.convertGetPrm
 //@   requires [allowed_outright_or_header_recheck_scheduled] eaclAllowedOnRequest() || a3.recheckEACL
+// ... and so must the transport that streams an erasure-coded object straight into the
+// response (it writes the parent header and the payload itself, past the response stream
+// above): it is installed only when no re-check is pending (recheckEACL, which the rule above
+// ties to the request-time verdict), or it carries the re-check.
+//@ ghost pred ecTransportRechecksTheHeader() bool
+//@ callrule c29_ec_transport_carries_the_pending_recheck in (*Server).Get
+//@   property C29 C28
+//@   callee (*get.Prm).WithECTransport
+//@   requires [no_header_recheck_pending_or_the_ec_transport_rechecks] !recheckEACL || ecTransportRechecksTheHeader()
 // ... HEAD keeps it in a local and evaluates the header it gets back.
 //@ callrule c29_head_keeps_the_pending_recheck in (*Server).HeadBuffered
 //@   property C29 C28
